@@ -88,16 +88,18 @@ func csvErrClass(err error) string {
 	return "other"
 }
 
-// csvSubErrClass: class of one entry of ds.errors.  crem's own "no header record" error and AddTable's
-// refusal are recognised by their text (they are plain errors); everything else is "other".
-func csvSubErrClass(err error) string {
+// csvSubErrClass: class of one entry of ds.errors.  The reader's errors are recognised by their TYPE (however wrapped).  crem's
+// own two refusals are plain errors whose wording is nobody's contract; they are recognised by what they are ABOUT: the text
+// has no record at all (noRecords), the name is already in use (duplicateTable, only where the caller says so).
+func csvSubErrClass(err error, text string, nameTaken bool) string {
 	if c := csvErrClass(err); c != "other" {
 		return c
 	}
-	switch msg := err.Error(); {
-	case strings.Contains(msg, "csv content has no header record"):
+	ref, refErr := csvRefRead(text)
+	switch {
+	case refErr == nil && len(ref) == 0:
 		return "noRecords"
-	case strings.Contains(msg, "already in DataSet"):
+	case refErr == nil && nameTaken:
 		return "duplicateTable"
 	}
 	return "other"
@@ -394,7 +396,7 @@ func csvEvaluate(text string, loader csvLoader, ths []string) *csvEval {
 	if err != nil {
 		class := "other" // also: more than one error for one text
 		if subs := csvErrorsOf(ds); len(subs) == 1 {
-			class = csvSubErrClass(subs[0])
+			class = csvSubErrClass(subs[0], text, false)
 		}
 		e.result = "err:" + class
 		e.verdict = e.result
@@ -584,7 +586,8 @@ func csvHistCase(c *Ctx, steps []csvHistStep, stream string) {
 			errs := csvErrorsOf(ds)
 			added := "-"
 			if len(errs) == before+1 {
-				added = csvSubErrClass(errs[len(errs)-1])
+				_, taken := prev[st.name]
+				added = csvSubErrClass(errs[len(errs)-1], st.text, taken)
 			} else if len(errs) != before {
 				added = fmt.Sprintf("errors:%d->%d", before, len(errs))
 			}
